@@ -145,6 +145,13 @@ func wcChild(a []string) string {
 		f.reads <- readRes{err: &websocket.CloseError{Code: 1001, Text: "away"}}
 	case "sever":
 		f.reads <- readRes{err: &net.OpError{Op: "read", Err: errors.New("connection reset")}}
+	case "severtmo":
+		// the transport failure is an expired read deadline (a net.Error with Timeout() true): gorilla/websocket
+		// makes every read error permanent, so for the connection it is a failure like any other
+		f.reads <- readRes{err: &net.OpError{Op: "read", Err: os.ErrDeadlineExceeded}}
+	}
+	if peer == "severtmo" {
+		peer = "sever"
 	}
 	if (strings.HasPrefix(peer, "first") || peer == "sever") && listen && scen != "errwriters" {
 		// with the default ReadHandler the library closes the connection itself: let it finish, so that what the
@@ -161,6 +168,20 @@ func wcChild(a []string) string {
 	switch scen {
 	case "closers", "writers":
 		if scen == "writers" {
+			if listen {
+				// the peer pings while the writers write: whatever answers a ping writes a frame too
+				wg.Add(1)
+				go func() {
+					defer wg.Done()
+					for j := 0; j < 12; j++ {
+						select {
+						case f.reads <- readRes{ping: true}:
+						default:
+						}
+						time.Sleep(100 * time.Microsecond)
+					}
+				}()
+			}
 			for i := 0; i < n; i++ {
 				wg.Add(1)
 				go func() {
@@ -424,7 +445,7 @@ func init() {
 		return "crash"
 	}
 	suites["wsconn"] = func(o *Out, r *Rng, n int, tier string) {
-		peers := []string{"echo", "silent", "first1000", "first1001", "sever", "writefail", "silentslow"}
+		peers := []string{"echo", "silent", "first1000", "first1001", "sever", "writefail", "silentslow", "severtmo"}
 		for i := 0; i < n; i++ {
 			switch r.Intn(9) {
 			case 5:
